@@ -12,11 +12,15 @@ OBLIGATIONS = [
     dict(_m.BASE, name="forward_lookup", src="../C01/symtab.c", defs=["K_FORWARD", "STRINGSIZE=16"],
          functions=["asmpars.c:LookupSymbol", "FindNode", "FindNode_FSpec", "FindNode_FNode", "EnterSymbol"],
          bounds="first pass, one section inside the global scope, a global symbol L; FORWARD L announced or not; reference spelled L or l; case-sensitive mode on/off"),
+    dict(_m.BASE, name="nameless_tmpsyms", src="../C01/symtab.c", defs=["K_TMPSYM", "NEV=6", "STRINGSIZE=16", "FMT_OFF_NO_PRINTF"], unwind=12, unwind_fn={"harness": 12, "setup": 12, "vmemmove": 20},
+         functions=["asmpars.c:ChkTmp2", "AddTmpSymLog", "InitTmpSymbols"],
+         bounds="all sequences of 6 definitions/references from {-, +, / definitions; -, --, ---, +, ++, +++ references}",
+         assumes=["the formatter producing the internal name is observed (prefix and number), not executed"]),
     dict(name="ppsyms", src="ppsyms.c", include=["asmallg.c"], units=["asmdef.c", "strcomp.c", "dynstr.c"], stubs=["diag.c", "fmt_off.c"], defs=["STRINGSIZE=16"],
          unwind=12, functions=["asmallg.c:CodePPSyms", "asmallg.c:CodePPSyms_SearchSym", "strcomp.c:StrCompSplitRef"], timeout=900,
          bounds="PUBLIC/GLOBAL/FORWARD list of two entries, each with or without a :section qualifier",
          assumes=["IdentifySection cut to a map from qualifier text to a handle", "ExpandStrSymbol = copy; concrete one-letter names"]),
 ]
-META = dict(outside=["temporary symbols (ChkTmp1/2/3 build names with sprintf)", "IdentifySection parsing of PARENTn/names", "composed .name symbols",
+META = dict(outside=["$$ and .name temporary symbols (ChkTmp1/ChkTmp3)", "IdentifySection parsing of PARENTn/names", "composed .name symbols",
                      "local handles, PUSHV/POPV, case folding beyond one letter, trees.c"],
             assumptions=["malloc never fails"])
